@@ -625,6 +625,9 @@ func (root *Root) resolveField(
 					Errors(ea).in(field.key())
 				}
 			}
+			if prev, has := result[field.key()]; has {
+				fv = mergeValues(prev, fv)
+			}
 			result[field.key()] = fv
 			return
 		}
@@ -637,6 +640,9 @@ func (root *Root) resolveField(
 			fv, ea2 = root.resolve(root, vars, field, root.uuSchemaType, depth)
 			ea = append(ea, ea2...)
 			Errors(ea).in(field.key())
+			if prev, has := result[field.key()]; has {
+				fv = mergeValues(prev, fv)
+			}
 			result[field.key()] = fv
 			return
 		}
